@@ -20,6 +20,7 @@ type c19Act struct {
 	Args   []string
 	Member string
 	Kind   string
+	Via    string
 	Ok     bool
 	Dev    bool
 }
@@ -29,6 +30,10 @@ class W {}
 class X {}
 class Box<T> { public T $v; public function id(T $x) { return 1; } }
 class Pair<K, V> { public K $k; public V $v; public function setv(V $x) { return 1; } }
+function put_v($o, $x) { $o->v = $x; }
+function put_k($o, $x) { $o->k = $x; }
+function call_id($o, $x) { return $o->id($x); }
+function call_setv($o, $x) { return $o->setv($x); }
 `
 
 func c19Value(kind string) string {
@@ -57,7 +62,13 @@ func c19Script(acts []c19Act, spawned bool) string {
 		case "new":
 			fmt.Fprintf(&sb, "$i%d = new %s<%s>();\n", a.I, a.Cls, strings.Join(a.Args, ", "))
 		case "write":
-			if a.Member == "id" || a.Member == "setv" {
+			if a.Via == "helper" {
+				h := "put_"
+				if a.Member == "id" || a.Member == "setv" {
+					h = "call_"
+				}
+				fmt.Fprintf(&sb, "try { %s%s($i%d, %s); echo \"ok;\"; } catch (\\Throwable $e) { echo \"rej;\"; }\n", h, a.Member, a.I, c19Value(a.Kind))
+			} else if a.Member == "id" || a.Member == "setv" {
 				fmt.Fprintf(&sb, "try { $i%d->%s(%s); echo \"ok;\"; } catch (\\Throwable $e) { echo \"rej;\"; }\n", a.I, a.Member, c19Value(a.Kind))
 			} else {
 				fmt.Fprintf(&sb, "try { $i%d->%s = %s; echo \"ok;\"; } catch (\\Throwable $e) { echo \"rej;\"; }\n", a.I, a.Member, c19Value(a.Kind))
@@ -117,7 +128,11 @@ func C19(c *Ctx) *kf.Report {
 			if a.Op == "new" {
 				ids = append(ids, fmt.Sprintf("new%s%s", a.Cls, strings.Join(a.Args, "")))
 			} else {
-				ids = append(ids, fmt.Sprintf("w%d.%s.%s", a.I, a.Member, a.Kind))
+				w := "w"
+				if a.Via == "helper" {
+					w = "h"
+				}
+				ids = append(ids, fmt.Sprintf("%s%d.%s.%s", w, a.I, a.Member, a.Kind))
 			}
 		}
 		seq := strings.Join(ids, ",")
@@ -182,7 +197,7 @@ func C19(c *Ctx) *kf.Report {
 	rep.Coverage["evaluations"] = writes
 	rep.Coverage["distinct_nontrivial"] = len(nontrivial)
 	rep.Coverage["exhaustive"] = true
-	rep.Coverage["rule"] = fmt.Sprintf("all sequences of <= %d instantiations/typed writes over Box<T> and Pair<K,V> (state-graph paths) replayed as scripts, each write compared with the reference verdict; seeded sequences up to length 6 from TLC -simulate; non-trivial = sequences on which the first-instantiation-wins mechanism would give a different verdict", maxOps)
+	rep.Coverage["rule"] = fmt.Sprintf("all sequences of <= %d instantiations/typed writes (each at its own source position or through a helper function shared by all instances) over Box<T> and Pair<K,V> (state-graph paths) replayed as scripts, each write compared with the reference verdict; seeded sequences up to length 6 from TLC -simulate; non-trivial = sequences on which the first-instantiation-wins mechanism would give a different verdict", maxOps)
 	if len(samples) == 0 {
 		samples = append(samples, "none")
 	}
